@@ -320,6 +320,15 @@ def directed(pool):
             out.append(("method-path-argument", x,
                         "pub struct %s {}\npub fn zz_typed<Q>(v: &u8, f: &mut ::core::fmt::Formatter<'_>) -> ::core::fmt::Result { ::core::fmt::Debug::fmt(v, f) }\n"
                         "#[derive(::educe::Educe)]\n#[educe(Debug)]\npub struct Ty {\n    #[educe(Debug(%s))]\n    pub k: u8,\n    pub j: u8,\n}\n" % (x, sp % x)))
+        # the name as the TYPE a custom method is reached through (`Name::method`), for Debug (named, and in the map form
+        # whose keys go through a helper item) and for Hash (whose method has a type parameter of its own)
+        out.append(("method-path-type", x,
+                    "pub struct %s {}\nimpl %s {\n    pub fn zz_show(v: &u8, f: &mut ::core::fmt::Formatter<'_>) -> ::core::fmt::Result { ::core::fmt::Debug::fmt(v, f) }\n"
+                    "    pub fn zz_h<Sx: ::core::hash::Hasher>(v: &u8, s: &mut Sx) { ::core::hash::Hash::hash(v, s) }\n}\n"
+                    "#[derive(::educe::Educe)]\n#[educe(Debug, Hash)]\npub struct Ty {\n    #[educe(Debug(method(%s::zz_show)), Hash(method(%s::zz_h)))]\n    pub k: u8,\n    pub j: u8,\n}\n"
+                    "#[derive(::educe::Educe)]\n#[educe(Debug(name = false), Hash)]\npub struct Ty2 {\n    #[educe(Debug(method = \"%s::zz_show\"), Hash(method = \"%s::zz_h\"))]\n    pub k: u8,\n    pub j: u8,\n}\n"
+                    "#[derive(::educe::Educe)]\n#[educe(Debug, Hash)]\npub enum Ty3 {\n    #[educe(Debug(name = false))]\n    V { #[educe(Debug(method(%s::zz_show)), Hash(method(%s::zz_h)))] k: u8, j: u8 },\n"
+                    "    W(#[educe(Hash(method = %s::zz_h))] u8),\n}\n" % (x, x, x, x, x, x, x, x, x)))
         # the name together with its lengthened forms, longest first: a fresh name must avoid all of them at once
         chain = [x + x[-1] * 2, base + base[-1], x]
         out.append(("type-param-chain", x,
@@ -337,6 +346,43 @@ def directed(pool):
         if x == base:
           out.append(("lifetime", x,
                     "#[derive(::educe::Educe)]\n#[educe(Debug, Clone, PartialEq, Eq, PartialOrd, Ord, Hash, Deref)]\npub struct Ty<'%s> {\n    pub a: &'%s u8,\n}\n" % (x, x)))
+    out += special_context_cases()
+    return out
+
+
+PRIMS = ["bool", "char", "str", "u8", "u16", "u32", "u64", "u128", "usize", "i8", "i16", "i32", "i64", "i128", "isize", "f32", "f64"]
+
+
+def special_context_cases():
+    """definitions inside modules where (a) every primitive type name means a user type, (b) nothing of the prelude is in
+    scope (`#![no_implicit_prelude]`): the definitions themselves only use full paths"""
+    out = []
+    P = "::core::primitive::"
+    shadow = "#![allow(non_camel_case_types, dead_code)]\n" + "".join(
+        "pub struct %s;\n" % p for p in PRIMS if p != "u8") + "#[derive(::core::clone::Clone)]\npub struct u8;\n"
+    noprel = "#![no_implicit_prelude]\n#![allow(dead_code)]\n"
+    Z = RT + "zz_dbg"
+    bodies = [
+        ("struct", "#[derive(::educe::Educe)]\n#[educe(%s, Into(%su16))]\npub struct Ty {\n    pub a: %su8,\n    #[educe(Debug(method(%s)))]\n    pub b: %su16,\n    pub c: %sbool,\n}\n"
+         % (ALL9, P, P, Z, P, P)),
+        ("tuple", "#[derive(::educe::Educe)]\n#[educe(%s, Deref, DerefMut)]\npub struct Ty(#[educe(Deref, DerefMut)] pub %su8, pub %sisize, #[educe(Debug(method(%s)))] pub %sf32);\n"
+         .replace("%s, Deref", "Debug, Clone, PartialEq, PartialOrd, Default, Deref") % (P, P, Z, P)),
+        ("enum-repr", "#[derive(::educe::Educe)]\n#[educe(%s)]\n#[repr(u8)]\npub enum Ty {\n    #[educe(Default)]\n    V(%su8, %su16) = 5,\n    W { k: %su8 } = 2,\n    U,\n}\n"
+         % (ALL9.replace("Debug", "Debug(name = true)"), P, P, P)),
+        ("enum-repr-i64", "#[derive(::educe::Educe)]\n#[educe(PartialEq, Eq, PartialOrd, Ord, Hash)]\n#[repr(C, i64)]\npub enum Ty {\n    V(%su8) = -5,\n    W = 2,\n}\n" % P),
+        ("enum", "#[derive(::educe::Educe)]\n#[educe(%s, Into(%su16))]\npub enum Ty {\n    #[educe(Default)]\n    V(%su16, #[educe(Debug(method(%s)))] %su8),\n    W { k: %su16 },\n}\n"
+         % (ALL9, P, P, Z, P, P)),
+        ("enum-unit", "#[derive(::educe::Educe)]\n#[educe(%s)]\npub enum Ty {\n    A = -200,\n    #[educe(Default)]\n    B = 70000,\n    C,\n}\n" % ALL9),
+        ("union", "#[derive(::educe::Educe)]\n#[educe(Debug(unsafe), PartialEq(unsafe), Eq, Hash(unsafe), Clone, Copy, Default)]\npub union Ty {\n    #[educe(Default)]\n    pub k: %su32,\n    pub j: [%su8; 4],\n}\n" % (P, P)),
+        ("map-form", "#[derive(::educe::Educe)]\n#[educe(Debug(name = false), Hash)]\npub struct Ty {\n    #[educe(Debug(method(%s)))]\n    pub a: %su8,\n    pub b: %su8,\n}\n" % (Z, P, P)),
+    ]
+    for name, body in bodies:
+        out.append(("primitives-shadowed/" + name, "primitive", shadow + body))
+        out.append(("no-implicit-prelude/" + name, "prelude", noprel + body))
+    # a field whose type is the user's own (non-Copy) type called `u8`: it is cloned like any other field
+    out.append(("primitives-shadowed/user-type-field", "primitive",
+                shadow + "#[derive(::educe::Educe)]\n#[educe(Clone)]\npub struct Ty {\n    pub a: u8,\n    pub b: %su16,\n}\n"
+                "#[derive(::educe::Educe)]\n#[educe(Clone)]\npub enum Ty2 {\n    V(u8, %su16),\n    W { x: u8 },\n}\n" % (P, P)))
     return out
 
 
@@ -351,10 +397,10 @@ def run_directed(chk, pool, ctxs):
     meta = {}
     for i, (pos, x, text) in enumerate(cases):
         cid = "d%d" % i
-        ctx = ctxs[i % len(ctxs)]
+        ctx = "none" if text.startswith("#![") else ctxs[i % len(ctxs)]
         meta[cid] = (pos, x, text, ctx)
         taken = set(IDENT_RE.findall(text))
-        stripped = "\n".join(l for l in text.split("\n") if not l.strip().startswith("#["))
+        stripped = "\n".join(l for l in text.split("\n") if not l.strip().startswith("#[") or l.strip().startswith("#[repr"))
         stripped = re.sub(r"#\[educe\([^\]]*\)\]\s*", "", stripped)
         b = "s%d" % (i % shards)
         libs[b].add_case(cid, "pub mod %s {\n%s%s}\n" % (cid, context(ctx, taken), text))
@@ -365,6 +411,7 @@ def run_directed(chk, pool, ctxs):
         bdrop.update(bd[b])
     for cid in bdrop:
         chk.inconc("names-not-legal-rust")
+        log("C19: the directed definition %s (%s) is not legal Rust without the derive: %s" % (cid, meta[cid][0], bdrop[cid][0]["message"][:200]))
         for b in libs:
             if cid in libs[b].texts:
                 libs[b].parts[2 + [r[0] for r in libs[b].ranges].index(cid)] = "\n" * libs[b].texts[cid].count("\n")
